@@ -122,6 +122,22 @@ def activate (h : Hash) (K : Int) (H sid : Bytes) (serverMode : Bool) (d : Dir)
     macSizeArg := if ci.aead then 16 else mi.size,
     blockSizeArg := ci.blockSize }
 
+/-- what `_parse_kex_init` left on the transport: the two directions are negotiated independently
+    (RFC 4253 section 7.1), so `local_*` and `remote_*` may name different algorithms -/
+structure Negotiated where
+  localCipher : CipherInfo
+  remoteCipher : CipherInfo
+  localMac : MacInfo
+  remoteMac : MacInfo
+  deriving Repr, DecidableEq
+
+/-- `_activate_inbound` reads `self._cipher_info[self.remote_cipher]` / `self._mac_info[self.remote_mac]`,
+    `_activate_outbound` the `local_*` ones: every size comes from the algorithm of *that* direction. -/
+def activateDir (h : Hash) (K : Int) (H sid : Bytes) (serverMode : Bool) (d : Dir) (n : Negotiated) : Keys :=
+  match d with
+  | .inbound => activate h K H sid serverMode .inbound n.remoteCipher n.remoteMac
+  | .outbound => activate h K H sid serverMode .outbound n.localCipher n.localMac
+
 /-! ## toy hash (executable instance; identical to `pv/lib_kex.py: ToyHash`) -/
 
 def toyAcc (x : Bytes) : Nat :=
